@@ -42,3 +42,5 @@ def check(v, tier, opts):
                      "collect_vec1_with_len with a length that is not the iterator's length (caller contract)")
     kani_engine.decide(v, "C19", tier, opts)
     return v.finish(RULE)
+
+READY = True
